@@ -281,11 +281,15 @@ static void do_get(econf_file *kf, int kd, const char *g, const char *k, const c
     e = has_def ? econf_getBoolValueDef(kf, g, k, &v, def[2] == '1') : econf_getBoolValue(kf, g, k, &v);
     printf("rc=%d", e); if (e == 0 || (has_def && e == ECONF_NOKEY)) printf(" b=%d", v ? 1 : 0); putchar(eol); break; }
   case 6: { float v = 0; uint32_t bits;
-    e = econf_getFloatValue(kf, g, k, &v); memcpy(&bits, &v, 4);
-    printf("rc=%d", e); if (e == 0) printf(" bits=%" PRIu32, bits); putchar(eol); break; }
+    if (has_def) { char *d = dec(def + 2); float dv = strtof(d, NULL); free(d); e = econf_getFloatValueDef(kf, g, k, &v, dv); }
+    else e = econf_getFloatValue(kf, g, k, &v);
+    memcpy(&bits, &v, 4);
+    printf("rc=%d", e); if (e == 0 || (has_def && e == ECONF_NOKEY)) printf(" bits=%" PRIu32, bits); putchar(eol); break; }
   case 7: { double v = 0; uint64_t bits;
-    e = econf_getDoubleValue(kf, g, k, &v); memcpy(&bits, &v, 8);
-    printf("rc=%d", e); if (e == 0) printf(" bits=%" PRIu64, bits); putchar(eol); break; }
+    if (has_def) { char *d = dec(def + 2); double dv = strtod(d, NULL); free(d); e = econf_getDoubleValueDef(kf, g, k, &v, dv); }
+    else e = econf_getDoubleValue(kf, g, k, &v);
+    memcpy(&bits, &v, 8);
+    printf("rc=%d", e); if (e == 0 || (has_def && e == ECONF_NOKEY)) printf(" bits=%" PRIu64, bits); putchar(eol); break; }
   }
 }
 
@@ -334,9 +338,25 @@ static void getall(econf_file *kf)
   putchar('\n');
 }
 
+static TL unsigned set_no = 0;
 static void do_set(econf_file *kf, int kd, const char *g, const char *k, const char *text, const char *z)
 {
   econf_err e = 0;
+  if (++set_no % 2 == 0 && kd != 5) {
+    /* every second call goes through the generic econf_setValue macro (no boolean there) */
+    char *gg = (char *) g, *kk = (char *) k;
+    switch (kd) {
+    case 0: e = econf_setValue(kf, gg, kk, (char *) text); break;
+    case 1: { int v = (int32_t) strtoll(z, NULL, 10); e = econf_setValue(kf, gg, kk, v); break; }
+    case 2: { long v = (int64_t) strtoll(z, NULL, 10); e = econf_setValue(kf, gg, kk, v); break; }
+    case 3: { unsigned int v = (uint32_t) strtoull(z, NULL, 10); e = econf_setValue(kf, gg, kk, v); break; }
+    case 4: { unsigned long v = (uint64_t) strtoull(z, NULL, 10); e = econf_setValue(kf, gg, kk, v); break; }
+    case 6: { uint32_t b = (uint32_t) strtoull(z, NULL, 10); float f; memcpy(&f, &b, 4); e = econf_setValue(kf, gg, kk, f); break; }
+    case 7: { uint64_t b = strtoull(z, NULL, 10); double f; memcpy(&f, &b, 8); e = econf_setValue(kf, gg, kk, f); break; }
+    }
+    printf("rc=%d\n", e);
+    return;
+  }
   switch (kd) {
   case 0: e = econf_setStringValue(kf, g, k, text); break;
   case 1: e = econf_setIntValue(kf, g, k, (int32_t) strtoll(z, NULL, 10)); break;
@@ -432,10 +452,11 @@ static void run_stream(FILE *in)
       do_ext(obj(t[1]), g, k);
       free(g); free(k);
     } else if (!strcmp(c, "groups")) {
-      char **l = NULL; size_t len = 0;
+      /* released by the cleanup helper the header provides for this purpose */
+      char **l __attribute__((cleanup(econf_freeArrayp))) = NULL; size_t len = 0;
       econf_err e = econf_getGroups(obj(t[1]), &len, &l);
       printf("rc=%d", e);
-      if (e == ECONF_SUCCESS) { printf(" l="); enc_list(l, len); econf_free(l); }
+      if (e == ECONF_SUCCESS) { printf(" l="); enc_list(l, len); }
       putchar('\n');
     } else if (!strcmp(c, "keys")) {
       char *g = dec(t[2]); char **l = NULL; size_t len = 0;
@@ -577,7 +598,8 @@ static void run_stream(FILE *in)
     } else if (!strcmp(c, "errstring")) {
       printf("rc=0 v="); enc(econf_errString((econf_err) atoi(t[1]))); putchar('\n');
     } else if (!strcmp(c, "free")) {
-      int o = atoi(t[1]); if (objs[o]) econf_free(objs[o]); objs[o] = NULL;
+      int o = atoi(t[1]); econf_freeFilep(&objs[o]);      /* the header's cleanup helper: frees and NULLs */
+      if (objs[o]) printf("driver-note econf_freeFilep left the pointer set\n");
       printf("rc=0\n");
     } else {
       printf("driver-error unknown command %s\n", c); exit(3);
